@@ -20,6 +20,7 @@ Families (each an exhaustive search of its own, selected by the `cfg` of Sys):
           (GIL released in a C function) while other threads make first calls
           (zombie reclamation), exit, or the Python thread calls / collects
   all     the union of the alphabets (thorough tier only)
+  perm    5 threads with a thread state each exit in each of the 5! orders (thorough tier only)
   ending  (not E2; _c36_end.py) a fresh interpreter is driven into every model
           state and then *ends* there -- normal finalisation, or fork() with the
           child continuing -- without the cleaning close()
@@ -56,7 +57,8 @@ META = dict(
          "when exited threads are reclaimed), get_ident() and a threading.local value must persist between the calls of "
          "one thread, and a freshly spawned thread must not see data of an exited one.  The same count is also taken "
          "inside every callback.  Further exhaustive families under the same model (quick: 2 threads, unmerged, depth 5 / "
-         "5 / 6; thorough: 3 threads, depth 6 / 6 / 7, plus the union alphabet `all` to depth 5): `extern` -- the same "
+         "5 / 6; thorough: 3 threads, depth 6 / 6 / 7, plus the union alphabet `all` to depth 5 and `perm`: 5 threads "
+         "with a state each exiting in all 120 orders before one first call reclaims them): `extern` -- the same "
          "thread alternates between an extern \"Python\" function (API mode, cffi_call_python) and an ffi.callback "
          "closure and must find the same thread state in both; `gstate` -- the C caller brings its own "
          "PyGILState_Ensure/Release around the callback (a caller-owned state must go away with the caller's release and "
@@ -73,7 +75,7 @@ META = dict(
          "threads are not under a controlled scheduler here)")
 
 NT = 3
-HELPER = 3
+HELPER = 7                    # slot of the helper thread (the harness has 8 slots)
 NEST = 1000000
 _W = {}
 
@@ -105,6 +107,7 @@ FAMILIES = {
     "parkq": (["call", "enter"], False),         # quick tier: without pycall / collect
     "end": (["call", "enter"], False),           # alphabet of the prefixes of the `ending` family
     "all": (["call", "ncall", "xcall", "gcall", "xgcall", "enter", "xenter", "genter"], True),
+    "perm": (["call"], False),                   # scripted: see Sys.enabled
 }
 
 
@@ -253,6 +256,15 @@ class Sys(object):
         nt = self.nt
         if self.maxd is not None and self.nops >= self.maxd:
             return ops
+        if self.fam == "perm":
+            # nt threads are spawned, each makes one call (so each owns a thread state), then they exit in
+            # every one of the nt! orders: the list of exited threads is built in every order before one
+            # first call (in close()) reclaims it
+            if self.nops < nt:
+                return [("spawn",)]
+            if self.nops < 2 * nt:
+                return [("call", self.nops - nt)]
+            return [("exit", i) for i in range(nt) if self.alive[i]]
         free = [i for i in range(nt) if not self.alive[i]]
         if free:
             ops.append(("spawn",))
@@ -561,6 +573,7 @@ def _plan(quick):
         (6, 4, 3, [("gstate", {"fam": "gstatex", "nt": 3})]),
         (7, 4, 2, [("park", {"fam": "park", "nt": 3})]),
         (5, 3, 2, [("all", {"fam": "all", "nt": 3})]),
+        (15, 15, 11, [("perm", {"fam": "perm", "nt": 5})]),
     ]
 
 
@@ -677,7 +690,8 @@ def run(ctx):
         "rule": "a state is an operation history (merged by model key beyond the family's d0); every transition drives "
                 "real pthreads.  Families: base (spawn/call/ncall/exit/pycall/collect), extern (closure and extern "
                 "\"Python\" entry alternating), gstate (caller-owned PyGILState around the callback), park (threads "
-                "inside a callback while others run), all (union; thorough); ending = one interpreter per "
+                "inside a callback while others run), all (union; thorough), perm (5 threads exiting in all 120 orders; "
+                "thorough); ending = one interpreter per "
                 "(model shape, way of ending) that stops without cleaning up, counted as one state and one "
                 "transition each",
         "initial_thread_states": base, "exhaustive": True,
